@@ -78,7 +78,11 @@ fn plan(prop: &str, tier: &str) -> Plan {
         // light oracles walk the perft-suite seeds one ply deeper in the quick tier
         let light = matches!(prop, "C01" | "C02" | "C03" | "C05" | "C12");
         let bump = if light && matches!(sd.name, "startpos" | "kiwipete" | "pos3" | "pos4" | "pos4m" | "pos5" | "pos6") { 1 } else { 0 };
-        let d = (depth_for(sd, tier) as i32 + adj + bump).max(0) as u32;
+        let mut d = (depth_for(sd, tier) as i32 + adj + bump).max(0) as u32;
+        if sd.name == "promo-vs-rooks" && matches!(prop, "C04" | "C13" | "C19" | "C06") {
+            // un-merged (C04) or heavy oracles: this deliberately deep seed is walked 4 (6) plies only
+            d = d.min(if thorough { 6 } else { 4 });
+        }
         let root = Pos::from_fen(sd.fen).unwrap();
         let split = if d >= 3 { 2 } else if d == 2 { 1 } else { 0 };
         let its = items_for(sd.name, sd.fen, &root, d, split);
@@ -108,6 +112,63 @@ fn plan(prop: &str, tier: &str) -> Plan {
         let tm = three_men();
         let n = family_items("three-men", tm, 0, &mut items);
         fams.push(json!({"family": "three-men", "members": n, "depth": 0, "complete": true}));
+    }
+    // C04: trees at the end of long games, nesting depths around 255 / 256 and beyond
+    if prop == "C04" {
+        let start = Pos::startpos();
+        let mut n = 0;
+        for len in [250usize, 253, 254, 255, 256, 257, 300, 520] {
+            let pre = preroll_game(len);
+            let tail = if thorough { 3 } else { 2 };
+            items.push(Item { seed_name: format!("long-game-{}", len), seed_fen: start.to_fen(), root: start.clone(), prefix: pre, remaining: tail });
+            n += 1;
+        }
+        fams.push(json!({"family": "trees at the end of long games (C04)", "members": n, "game_lengths": [250, 253, 254, 255, 256, 257, 300, 520]}));
+    }
+    // C05: the key must not depend on the clocks either — roots pre-loaded with half-move clocks
+    // around 100 and ply counts around 255 (the key is compared with a direct set-up at clock 0)
+    if prop == "C05" {
+        let mut n = 0;
+        for name in ["startpos", "kiwipete", "castle-base-w", "ep-legal-both", "krk"] {
+            let sd = TREE_SEEDS.iter().find(|s| s.name == name).unwrap();
+            for (half, ply) in [(99u32, 0u32), (100, 0), (101, 0), (150, 0), (0, 254), (0, 256), (99, 300)] {
+                let mut p = Pos::from_fen(sd.fen).unwrap();
+                p.halfmove = half;
+                p.ply = if (ply % 2 == 1) == (p.stm == Side::Black) { ply } else { ply + 1 };
+                let fen = p.to_fen();
+                let nm: &'static str = Box::leak(format!("{}@half{}ply{}", name, half, ply).into_boxed_str());
+                let ff: &'static str = Box::leak(fen.into_boxed_str());
+                // (not merged with the clock-free states: these items carry their own seed name and
+                // the canonical key has no clocks, so they run first, before the tree seeds' items)
+                let mut its = items_for(nm, ff, &p, 2, 0);
+                n += its.len();
+                its.append(&mut items);
+                items = its;
+            }
+        }
+        fams.push(json!({"family": "clock-preloaded roots (C05)", "members": n, "depth": 2}));
+    }
+    // playout seeds: positions deep into deterministic long games (several promoted pieces etc.)
+    {
+        let heavy = matches!(prop, "C04" | "C06" | "C13");
+        let (n, plies, every, d) = if thorough { (16, 240, 6, if heavy { 1 } else { 2 }) } else { (8, 200, 10, 1) };
+        let ps = playout_seeds(n, plies, every);
+        let cnt = ps.len();
+        let mut promoted = 0;
+        for (name, p) in ps {
+            let queens = p.sq.iter().filter(|x| matches!(x, Some((Kind::Queen, _)))).count();
+            let knights = p.sq.iter().filter(|x| matches!(x, Some((Kind::Knight, _)))).count();
+            let rooks = p.sq.iter().filter(|x| matches!(x, Some((Kind::Rook, _)))).count();
+            let bishops = p.sq.iter().filter(|x| matches!(x, Some((Kind::Bishop, _)))).count();
+            if queens > 2 || knights > 4 || rooks > 4 || bishops > 4 {
+                promoted += 1;
+            }
+            let fen = p.to_fen();
+            let nm: &'static str = Box::leak(name.into_boxed_str());
+            let ff: &'static str = Box::leak(fen.into_boxed_str());
+            items.extend(items_for(nm, ff, &p, d, if d >= 2 { 1 } else { 0 }));
+        }
+        fams.push(json!({"family": "playout-seeds", "members": cnt, "depth": d, "members_with_more_pieces_of_a_kind_than_the_initial_array": promoted, "rule": "deterministic long games from 4 starts, sampled every few plies"}));
     }
     if let Some(it) = items.iter().rev().find(|i| i.seed_name == "ep-matrix") {
         samples.push(json!({"family": "ep-matrix", "member": it.seed_fen}));
@@ -150,6 +211,13 @@ pub fn run(a: &Args) -> i32 {
     ];
     if prop == "C02" {
         collision_pass(&w, &sink, &mut rep);
+        single_generator_pass(&w, &sink, &mut rep, if a.tier == "thorough" { 1_500_000 } else { 450_000 });
+    }
+    if prop == "C02" || prop == "C06" {
+        twin_pass(prop, &w, &sink, &mut rep, a.threads, if a.tier == "thorough" { 2_000_000 } else { 500_000 });
+    }
+    if prop == "C06" {
+        single_generator_verdict_pass(&w, &sink, &mut rep, if a.tier == "thorough" { 1_500_000 } else { 450_000 });
     }
     if prop == "C04" || prop == "C12" {
         // deep graph DFS: paths of hundreds of plies on one board, every prefix undone in reverse
@@ -476,4 +544,293 @@ fn c05_setup_orders(sink: &Sink, rep: &mut Report) {
     }
     rep.add("set_up_orders_compared", n);
     rep.states += n;
+}
+
+/// C02 part 3: ONE generator is asked about every distinct state the walk visited (up to `cap`,
+/// in the order of the canonical keys), so that any two explored positions that the generator's
+/// caches confuse are both served by the same instance; answers compared with the model,
+/// arbitrated by a brand-new generator.
+fn single_generator_pass(w: &Walker, sink: &Sink, rep: &mut Report, cap: usize) {
+    let mut keys = w.visited_keys();
+    keys.sort();
+    let total = keys.len();
+    if keys.len() > cap {
+        // keep an evenly spread subset (stated in the evidence)
+        let stride = keys.len() / cap + 1;
+        keys = keys.into_iter().step_by(stride).collect();
+    }
+    let mut g = MoveGenerator::new();
+    let mut asked = 0u64;
+    let mut arbitrations = 0;
+    for k in keys.iter() {
+        let pos = uncanon(k);
+        let mut board = build_board(&pos);
+        let turn = color_of(pos.stm);
+        let legal: Vec<MoveDesc> = {
+            let mut v: Vec<MoveDesc> = pos.legal_moves().iter().map(describe_model).collect();
+            v.sort();
+            v
+        };
+        asked += 1;
+        match guarded(|| g.generate_moves(&mut board, turn)) {
+            Ok(ms) => {
+                let mut got: Vec<MoveDesc> = ms.iter().map(describe_impl).collect();
+                got.sort();
+                if got != legal && arbitrations < 100 {
+                    arbitrations += 1;
+                    let fresh = guarded(|| MoveGenerator::new().generate_moves(&mut board, turn)).map(|v| {
+                        let mut d: Vec<MoveDesc> = v.iter().map(describe_impl).collect();
+                        d.sort();
+                        d
+                    });
+                    if fresh != Ok(got.clone()) {
+                        sink.push(Violation { prop: "C02".into(), class: "moves-differ-from-brand-new-generator(single-generator-pass)".into(), seed: pos.to_fen(), path: vec![], detail: format!("one generator asked about all {} explored states in key order: at {} it answers {:?}, a brand-new generator {:?}", asked, pos.to_fen(), diff_move_lists(&got, &legal), fresh.as_ref().map(|f| diff_move_lists(f, &legal))), extra: json!({"kind": "c02-pass"}) });
+                    }
+                }
+            }
+            Err(p) => {
+                sink.push(Violation { prop: "C02".into(), class: "panic-in-generate_moves(single-generator-pass)".into(), seed: pos.to_fen(), path: vec![], detail: p, extra: json!({"kind": "c02-pass"}) });
+                g = MoveGenerator::new();
+            }
+        }
+        for side in [Side::White, Side::Black] {
+            if let Ok(got) = guarded(|| g.get_attack_targets(&board, color_of(side))) {
+                if got.0 != pos.attack_map(side) && arbitrations < 100 {
+                    arbitrations += 1;
+                    let fresh = guarded(|| MoveGenerator::new().get_attack_targets(&board, color_of(side))).map(|b| b.0);
+                    if fresh != Ok(got.0) {
+                        sink.push(Violation { prop: "C02".into(), class: "attacks-differ-from-brand-new-generator(single-generator-pass)".into(), seed: pos.to_fen(), path: vec![], detail: format!("side {:?}: {:#018x} vs brand-new {:?}", side, got.0, fresh), extra: json!({"kind": "c02-pass"}) });
+                    }
+                }
+            }
+        }
+    }
+    rep.add("single_generator_pass_states", asked);
+    rep.transitions += asked;
+    if total > cap {
+        rep.notes.push(format!("single-generator pass: {} of {} explored states (every {}-th in key order)", asked, total, total / cap + 1));
+    }
+}
+
+/// C06 with a generator that has served arbitrary earlier queries: ONE generator gives the
+/// in-check and game-ending verdicts of every distinct state the walk visited (up to `cap`, in
+/// key order); compared with the model.
+fn single_generator_verdict_pass(w: &Walker, sink: &Sink, rep: &mut Report, cap: usize) {
+    use chess::evaluate::{self, GameEnding};
+    let mut keys = w.visited_keys();
+    keys.sort();
+    let total = keys.len();
+    if keys.len() > cap {
+        let stride = keys.len() / cap + 1;
+        keys = keys.into_iter().step_by(stride).collect();
+    }
+    let mut g = MoveGenerator::new();
+    let mut asked = 0u64;
+    for k in keys.iter() {
+        let pos = uncanon(k);
+        let mut board = build_board(&pos);
+        let turn = color_of(pos.stm);
+        asked += 1;
+        let legal_empty = pos.legal_moves().is_empty();
+        let want = if legal_empty {
+            if pos.in_check(pos.stm) {
+                "checkmate"
+            } else {
+                "stalemate"
+            }
+        } else {
+            "none"
+        };
+        match guarded(|| evaluate::game_ending(&mut board, &mut g, turn)) {
+            Ok(e) => {
+                let got = match e {
+                    Some(GameEnding::Checkmate) => "checkmate",
+                    Some(GameEnding::Stalemate) => "stalemate",
+                    Some(GameEnding::Draw) => "draw",
+                    None => "none",
+                };
+                if got != want {
+                    let fresh = guarded(|| evaluate::game_ending(&mut board, &mut MoveGenerator::new(), turn)).map(|e| format!("{:?}", e));
+                    sink.push(Violation { prop: "C06".into(), class: "game-ending-verdict(single-generator-pass)".into(), seed: pos.to_fen(), path: vec![], detail: format!("one generator asked about all explored states in key order: state number {} is judged {}, the rules say {}; a brand-new generator says {:?}", asked, got, want, fresh), extra: json!({"kind": "c06-pass"}) });
+                }
+            }
+            Err(p) => {
+                sink.push(Violation { prop: "C06".into(), class: "panic-in-game_ending(single-generator-pass)".into(), seed: pos.to_fen(), path: vec![], detail: p, extra: json!({"kind": "c06-pass"}) });
+                g = MoveGenerator::new();
+            }
+        }
+        for side in [Side::White, Side::Black] {
+            if let Ok(got) = guarded(|| evaluate::player_is_in_check(&board, &mut g, color_of(side))) {
+                if got != pos.in_check(side) {
+                    sink.push(Violation { prop: "C06".into(), class: "in-check-verdict(single-generator-pass)".into(), seed: pos.to_fen(), path: vec![], detail: format!("side {:?}: engine says {}, rules say {}", side, got, pos.in_check(side)), extra: json!({"kind": "c06-pass"}) });
+                }
+            }
+        }
+    }
+    rep.add("single_generator_pass_states", asked);
+    rep.transitions += asked;
+    if total > cap {
+        rep.notes.push(format!("single-generator pass: {} of {} explored states (every {}-th in key order)", asked, total, total / cap + 1));
+    }
+}
+
+/// positions that differ from `p` in exactly the en-passant possibility or the castling rights
+/// (always consistent set-up positions: fewer rights / no ep target)
+fn twins(p: &Pos) -> Vec<Pos> {
+    let mut out = Vec::new();
+    if p.ep.is_some() {
+        let mut t = p.clone();
+        t.ep = None;
+        out.push(t);
+    }
+    if p.castle != 0 {
+        let mut t = p.clone();
+        t.castle = 0;
+        out.push(t);
+        let own = if p.stm == Side::White { WK | WQ } else { BK | BQ };
+        if p.castle & own != 0 && p.castle & !own != 0 {
+            let mut t = p.clone();
+            t.castle &= !own;
+            out.push(t);
+        }
+    }
+    out
+}
+
+/// C02 / C06: for every explored state that has an en-passant target or castling rights, the
+/// state and its twins (same placement, other en-passant possibility / other rights) are put to
+/// one generator in both orders; C02 compares move lists, C06 the game-ending verdicts.
+fn twin_pass(prop: &str, w: &Walker, sink: &Sink, rep: &mut Report, threads: usize, cap: usize) {
+    use chess::evaluate::{self, GameEnding};
+    use rayon::prelude::*;
+    let mut keys: Vec<CKey> = w.visited_keys().into_iter().filter(|k| (k[4] >> 1) != 0).collect(); // rights or ep present
+    keys.sort();
+    let total = keys.len();
+    if keys.len() > cap {
+        let stride = keys.len() / cap + 1;
+        keys = keys.into_iter().step_by(stride).collect();
+    }
+    let pool = rayon::ThreadPoolBuilder::new().num_threads(threads).build().unwrap();
+    let chunk = (keys.len() / (threads * 4).max(1)).max(1);
+    let queries = std::sync::atomic::AtomicU64::new(0);
+    let verdict = |p: &Pos| -> &'static str {
+        if p.legal_moves().is_empty() {
+            if p.in_check(p.stm) {
+                "checkmate"
+            } else {
+                "stalemate"
+            }
+        } else {
+            "none"
+        }
+    };
+    pool.install(|| {
+        keys.par_chunks(chunk).for_each(|ks| {
+            // generator A sees each state before its twins, generator B the twins first
+            let mut ga = MoveGenerator::new();
+            let mut gb = MoveGenerator::new();
+            let mut n = 0u64;
+            let mut ask = |g: &mut MoveGenerator, p: &Pos, order: &str, annotate: bool| {
+                let mut board = build_board(p);
+                let turn = color_of(p.stm);
+                if prop == "C02" {
+                    let mut want: Vec<MoveDesc> = p.legal_moves().iter().map(describe_model).collect();
+                    want.sort();
+                    match guarded(|| g.generate_moves(&mut board, turn)) {
+                        Ok(ms) => {
+                            let mut got: Vec<MoveDesc> = ms.iter().map(describe_impl).collect();
+                            got.sort();
+                            if got != want {
+                                let fresh = guarded(|| MoveGenerator::new().generate_moves(&mut board, turn)).map(|v| {
+                                    let mut d: Vec<MoveDesc> = v.iter().map(describe_impl).collect();
+                                    d.sort();
+                                    d
+                                });
+                                if fresh != Ok(got.clone()) {
+                                    sink.push(Violation { prop: "C02".into(), class: "served-a-twin-positions-answer".into(), seed: p.to_fen(), path: vec![], detail: format!("generator asked about a position and its twins (same placement, other en-passant possibility / castling rights; {}): for {} it answers {:?}", order, p.to_fen(), diff_move_lists(&got, &want)), extra: json!({"kind": "c02-twins", "order": order}) });
+                                }
+                            }
+                        }
+                        Err(e) => sink.push(Violation { prop: "C02".into(), class: "panic-in-generate_moves(twins)".into(), seed: p.to_fen(), path: vec![], detail: e, extra: json!({"kind": "c02-twins", "order": order}) }),
+                    }
+                } else {
+                    let want = verdict(p);
+                    match guarded(|| evaluate::game_ending(&mut board, g, turn)) {
+                        Ok(e) => {
+                            let got = match e {
+                                Some(GameEnding::Checkmate) => "checkmate",
+                                Some(GameEnding::Stalemate) => "stalemate",
+                                Some(GameEnding::Draw) => "draw",
+                                None => "none",
+                            };
+                            if got != want {
+                                sink.push(Violation { prop: "C06".into(), class: "game-ending-verdict(twins)".into(), seed: p.to_fen(), path: vec![], detail: format!("generator asked about a position and its twins (same placement, other en-passant possibility / castling rights; {}): {} is judged {}, the rules say {}", order, p.to_fen(), got, want), extra: json!({"kind": "c06-twins", "order": order}) });
+                            }
+                        }
+                        Err(e) => sink.push(Violation { prop: "C06".into(), class: "panic-in-game_ending(twins)".into(), seed: p.to_fen(), path: vec![], detail: e, extra: json!({"kind": "c06-twins", "order": order}) }),
+                    }
+                    // en-passant twins: also the annotated move list (length and every annotation)
+                    if annotate {
+                        let legal = p.legal_moves();
+                        match guarded(|| g.generate_moves_and_lazily_update_chess_move_effects(&mut board, turn)) {
+                            Ok(am) => {
+                                let mut bad = am.len() != legal.len();
+                                for m in am.iter() {
+                                    let d = describe_impl(m);
+                                    match legal.iter().find(|x| describe_model(x) == d) {
+                                        Some(mm) => {
+                                            let succ = p.make(mm);
+                                            let want = if succ.in_check(succ.stm) {
+                                                if succ.legal_moves().is_empty() {
+                                                    chess::chess_move::chess_move_effect::ChessMoveEffect::Checkmate
+                                                } else {
+                                                    chess::chess_move::chess_move_effect::ChessMoveEffect::Check
+                                                }
+                                            } else {
+                                                chess::chess_move::chess_move_effect::ChessMoveEffect::None
+                                            };
+                                            if m.effect() != want {
+                                                bad = true;
+                                            }
+                                        }
+                                        None => bad = true,
+                                    }
+                                }
+                                if bad {
+                                    sink.push(Violation { prop: "C06".into(), class: "annotated-list(twins)".into(), seed: p.to_fen(), path: vec![], detail: format!("generator asked about a position and its en-passant twin ({}): the annotated list for {} has {} moves (rules: {}) or a wrong annotation", order, p.to_fen(), am.len(), legal.len()), extra: json!({"kind": "c06-twins", "order": order}) });
+                                }
+                            }
+                            Err(e) => sink.push(Violation { prop: "C06".into(), class: "panic-in-annotated-generation(twins)".into(), seed: p.to_fen(), path: vec![], detail: e, extra: json!({"kind": "c06-twins", "order": order}) }),
+                        }
+                    }
+                }
+            };
+            for k in ks {
+                let p = uncanon(k);
+                let ts = twins(&p);
+                let has_ep = p.ep.is_some();
+                ask(&mut ga, &p, "state first", has_ep);
+                for (i, t) in ts.iter().enumerate() {
+                    ask(&mut ga, t, "state first", has_ep && i == 0);
+                }
+                for (i, t) in ts.iter().enumerate() {
+                    ask(&mut gb, t, "twins first", has_ep && i == 0);
+                }
+                ask(&mut gb, &p, "twins first", has_ep);
+                n += 2 + 2 * ts.len() as u64;
+                if ga.cache_entry_count() > 60_000 {
+                    ga = MoveGenerator::new();
+                    gb = MoveGenerator::new();
+                }
+            }
+            queries.fetch_add(n, std::sync::atomic::Ordering::Relaxed);
+        });
+    });
+    let q = queries.load(std::sync::atomic::Ordering::Relaxed);
+    rep.add("twin_pass_queries", q);
+    rep.add("twin_pass_states_with_ep_or_rights", keys.len() as u64);
+    rep.transitions += q;
+    if total > cap {
+        rep.notes.push(format!("twin pass: {} of {} explored states with an ep target or rights", keys.len(), total));
+    }
 }
